@@ -6,7 +6,10 @@ from pyvc.frontend import Program
 from pyvc import verify as VV
 from contracts import registry
 
-V = VV.Verifier(Program(), registry.SCHEMA, registry.CONTRACTS, registry.SPEC, timeout_ms=8000)
+_prog = Program()
+for _n, _p in registry.SIDE_MODULES.items():
+    _prog.add_module(_n, _p)
+V = VV.Verifier(_prog, registry.SCHEMA, registry.CONTRACTS, registry.SPEC, timeout_ms=8000)
 q, target = sys.argv[1], sys.argv[2]
 
 
@@ -19,11 +22,17 @@ def solve(out):
             g = VV.intro(ob.goal)
             inst = VV.preinstantiate(full, g)
             core = [f for f in VV._flatten(list(full) + inst) if not VV._has_quant(f)]
+            core += VV.divmod_instances(core + [g])
             s = z3.Solver(); s.set(timeout=8000); s.add(*core); s.add(z3.Not(g))
             t = time.time(); r = s.check()
             print("path", n, "qfi:", r, round(time.time() - t, 2), "core", len(core), "inst", len(inst))
             if r != z3.unsat and "-g" in sys.argv:
                 print("GOAL", g)
+            if r != z3.unsat and "-s" in sys.argv and z3.is_and(g):
+                for part in VV._flatten([g]):
+                    s2 = z3.Solver(); s2.set(timeout=4000); s2.add(*core); s2.add(z3.Not(part))
+                    t = time.time(); r2 = s2.check()
+                    print("    part", r2, round(time.time() - t, 2), str(part)[:160].replace("\n", " "))
             if r == z3.sat and "-m" in sys.argv:
                 m = s.model()
                 for d in m.decls():
